@@ -152,3 +152,12 @@ Example C05_nonvacuous_run :
   | None => False
   end.
 Proof. vm_compute. split; reflexivity. Qed.
+
+
+(* non-vacuity of the termination bound: for the run above (43 steps, all premises of C05_terminates met:
+   lengths 2, capacities 1, enqueue before write) the bound is a concrete number that the run respects *)
+Example C05_nonvacuous_bound :
+  p_order nonvac_params = true /\
+  length nonvac_labels = 43 /\
+  wmeasure nonvac_params (fun _ => 2) (fun _ => 2) (w_init [2; 1]) = 86.
+Proof. vm_compute. repeat split. Qed.
